@@ -588,6 +588,62 @@ def spline_grid(case, ctx):
 
 
 # ----------------------------------------------------------------------------------------------
+# 5b. the interpolators of real generators, step by step
+
+@st.composite
+def st_realinterp(draw):
+    return {"layout": draw(G.st_real_layout(levels=(0,), lmaxs=(2, 3, 4))), "nldf": draw(G.st_nldf()),
+            "threads": draw(THREADS), "seed": draw(SEED)}
+
+
+@subcheck("C05", "real_interp", st_realinterp, quick=64, thorough=1200,
+          rule="the interpolator of a real PyscfNLDFGenerator (H2/HF/H2O/He, sto-3g/6-31g/def2-svp, level-0 grids incl. "
+               "density-pruned index maps, lmax 2-4, versions j/i/ij/k, interpolators onsite_direct / onsite_spline / "
+               "train_gen, spline size 60-200): conv2spline/spline2conv, interpolate_fwd/bwd and project_orb2grid/"
+               "project_grid2orb, each pair alone at the exact tolerances (dot + one-hot entry tests, no solve inside); "
+               "threads 1/3/16; non-trivial always (>=2 l, real grids)",
+          tolerances={"dot_rtol": RTOL, "entry_rtol": RTOL, "entry_floor": FLOOR})
+def real_interp(case, ctx):
+    _, grids, gen = G.build_real_generator(case["layout"], case["nldf"])
+    it = gen.interpolator
+    ind = grids.grids_indexer
+    direct = hasattr(it, "grids_indexer")
+    nused = it.all_coords.shape[0]
+    ngout = nused + (ind.padding if direct else 0)
+    nao, nin_q, nout_q = it.atco.nao, it.num_in, it.num_out
+    shape_s = (it.atco.natm, it.nrad, it.nlm, 4, nout_q)
+    ns = case["nldf"]
+    ctx.event("%s/%s n0=%d n1=%d" % (ns["kind"], ns["interp"], it._n0, it._n1))
+    ctx.event("threads=%d" % case["threads"])
+    ctx.nontrivial([lay_key(case["layout"]), ns])
+
+    def A(x):
+        return it.conv2spline(np.ascontiguousarray(x.reshape(nao, nin_q))).ravel()
+
+    def B(y):
+        return it.spline2conv(np.ascontiguousarray(y.reshape(shape_s))).ravel()
+
+    def IA(x):
+        return it.interpolate_fwd(np.ascontiguousarray(x.reshape(shape_s))).ravel()
+
+    def IB(y):
+        return it.interpolate_bwd(np.ascontiguousarray(y.reshape(nused, nout_q)).copy()).ravel()
+
+    def PA(x):
+        return it.project_orb2grid(np.ascontiguousarray(x.reshape(nao, nin_q))).ravel()
+
+    def PB(y):
+        return it.project_grid2orb(np.ascontiguousarray(y.reshape(ngout, nout_q)).copy()).ravel()
+
+    with threads(case["threads"]):
+        adjoint_suite(ctx, "real_orb_spline", A, B, nao * nin_q, int(np.prod(shape_s)), case["seed"], nrand=2, nprobe=3)
+        adjoint_suite(ctx, "real_spline_grid:" + ns["interp"], IA, IB, int(np.prod(shape_s)), nused * nout_q,
+                      case["seed"] + 1, nrand=2, nprobe=3)
+        adjoint_suite(ctx, "real_orb_grid:" + ns["interp"], PA, PB, nao * nin_q, ngout * nout_q, case["seed"] + 2,
+                      nrand=2, nprobe=3)
+
+
+# ----------------------------------------------------------------------------------------------
 # 6. interpolation-coefficient transforms
 
 @st.composite
